@@ -112,6 +112,94 @@ def check(prog, run):
     consumers(prog, run, producer_order)
     var_slot(prog, run)
     gram(prog, run)
+    select_rule(prog, run)
+    # the class-level observable: SSIcov(calc_unc=True).result.Fn_poles_cov receives the FREQUENCY variances of the pole routine
+    from . import C09
+    C09.slot_provenance(prog, run, "R-var-slot", classes=[("algorithms.ssi.SSIcov", "cov_mm", True)])
+
+
+def select_rule(prog, run):
+    """R-select: the sensitivity blocks Q1..Q3 have one row per entry of a vectorised ordmax x ordmax matrix (row c*ordmax + r, written
+    block by block in SSI_fast); the part that belongs to model order n is the vectorisation of the leading n x n block: rows
+    c*ordmax + r with c, r < n - the Kronecker selection kron([I_n 0], [I_n 0]) (or the same through a reshape).  The leading n^2 rows
+    are a different set unless n == ordmax."""
+    from .. import symidx
+    run.rule("R-select", "order-n part of Q1..Q3 = kron([I_n 0], [I_n 0]) . Qk (rows c*ordmax + r, c, r < n), not a leading-rows slice", 1)
+    fi = prog.func(POLES)
+    f = rel(prog.mods[fi.mod].path)
+    pf = astq.PrunedFn(fi, {"calc_unc": True})
+    pos = astq.params_of(fi.node)[0] + astq.params_of(fi.node)[1]
+    qs = [p_ for p_ in pos if p_ in ("Q1", "Q2", "Q3")]
+    pm = astq.parent_map(pf.node)
+
+    def is_sel(e):
+        """[I_n 0] with n rows and ordmax columns"""
+        t = astq.src(e, 200).replace(" ", "")
+        if isinstance(e, ast.Call) and astq.callee_name(prog, pf, e) == "numpy.eye" and len(e.args) >= 2:
+            return "ordmax" in astq.src(e.args[1])
+        if isinstance(e, ast.Call) and astq.callee_name(prog, pf, e) in ("numpy.hstack", "numpy.concatenate", "numpy.block") and e.args and isinstance(e.args[0], (ast.List, ast.Tuple)):
+            el = e.args[0].elts
+            if isinstance(e.args[0].elts[0], (ast.List, ast.Tuple)):
+                el = e.args[0].elts[0].elts
+            return len(el) == 2 and isinstance(el[0], ast.Call) and astq.callee_name(prog, pf, el[0]) in ("numpy.eye", "numpy.identity") \
+                and isinstance(el[1], ast.Call) and astq.callee_name(prog, pf, el[1]) == "numpy.zeros" and "ordmax" in astq.src(el[1])
+        return False
+    seen = set()
+    for n in ast.walk(pf.node):
+        if not (isinstance(n, ast.Name) and n.id in qs and isinstance(n.ctx, ast.Load)):
+            continue
+        par = pm.get(n)
+        # the generator / comprehension over (Q1, Q2, Q3): judge the element expression with the loop variable standing for each table
+        var = n.id
+        if isinstance(par, (ast.Tuple, ast.List)) and isinstance(pm.get(par), ast.comprehension) and isinstance(pm[par].target, ast.Name):
+            comp = pm.get(pm[par])
+            var = pm[par].target.id
+            uses = [x for x in ast.walk(comp.elt)] if hasattr(comp, "elt") else []
+            cands = [(x, comp.elt) for x in uses if isinstance(x, ast.Name) and x.id == var]
+        else:
+            cands = [(n, None)]
+        for use, root in cands:
+            up = pm.get(use) if root is None else None
+            if root is not None:
+                up = None
+                stack = [root]
+                pmap = astq.parent_map(root)
+                up = pmap.get(use)
+            ok, why = None, None
+            if isinstance(up, ast.Subscript) and up.value is use:
+                el = astq.index_elts(up)
+                if isinstance(el[0], ast.Slice) and not astq.is_full_slice(el[0]):
+                    ok, why = False, f"`{astq.src(up, 50)}` takes the leading rows of the vectorised ordmax x ordmax blocks: for n < ordmax these are not the entries (r, c) with r, c < n"
+                elif astq.is_full_slice(el[0]):
+                    continue
+            elif isinstance(up, ast.Call) and isinstance(up.func, ast.Attribute) and up.func.attr == "reshape" and up.func.value is use:
+                t = astq.src(up, 80).replace(" ", "")
+                ok, why = (True if t.count("ordmax") >= 2 else None), f"`{astq.src(up, 60)}` un-vectorises the blocks"
+            elif isinstance(up, (ast.Call, ast.BinOp)):
+                other = None
+                if isinstance(up, ast.BinOp) and isinstance(up.op, ast.MatMult) and up.right is use:
+                    other = up.left
+                elif isinstance(up, ast.Call) and astq.callee_name(prog, pf, up) in ("numpy.dot", "numpy.matmul") and len(up.args) == 2 and up.args[1] is use:
+                    other = up.args[0]
+                if other is not None:
+                    x = astq.expr_at(pf, n, other)
+                    if isinstance(x, ast.Call) and astq.callee_name(prog, pf, x) == "numpy.kron" and len(x.args) == 2:
+                        a_, b_ = is_sel(x.args[0]), is_sel(x.args[1])
+                        ok = True if (a_ and b_) else None
+                        why = f"selection `{astq.src(x, 70)}`"
+                    else:
+                        why = f"`{astq.src(x, 60)}` . {var}: selection matrix not recognised"
+                else:
+                    continue
+            else:
+                continue
+            key = (n.id if root is None else "/".join(qs), astq.dump(up))
+            if key in seen:
+                continue
+            seen.add(key)
+            run.ob("R-select", fi.qual, f"order-n part of {key[0]}", ok, why, witness=(why or "")[:80], file=f, node=n)
+    if not seen:
+        run.ob("R-select", fi.qual, "order-n part of Q1..Q3", None, "no use of the sensitivity blocks found in the uncertainty branch", file=f)
 
 
 def gram(prog, run):
